@@ -37,7 +37,7 @@ SPACE = {'quick': 'all option actions x value alphabet x 3 formats; override/acc
 JOB_TIMEOUT = 2300
 
 A = ['a', ' ', "'", '"', '\\', '#', ';', '%', '[', ']', ',', '\n', '\u00e9']
-BASE_VALUES = ['simple', 'with space', 'a=b', 'a:b', 'x#y', 'x;y', "it's", 'say "hi"', 'ünï', '[x]', 'a,b', '100%', '  lead', 'trail  ', '', '"quoted"', "'q'", 'back\\slash', '$HOME', '{x}', ' Caf\u00e9 \u2603 ', 'na\u00efve', '1.10', '0x10', 'true', '1e3', '2020-01-01', '007', '+1', 'inf', '1_000']
+BASE_VALUES = ['[beta] Demo', '[rc] 1.2', 'a [b] c', 'x]', '[', '[a] [b] tail', 'simple', 'with space', 'a=b', 'a:b', 'x#y', 'x;y', "it's", 'say "hi"', 'ünï', '[x]', 'a,b', '100%', '  lead', 'trail  ', '', '"quoted"', "'q'", 'back\\slash', '$HOME', '{x}', ' Caf\u00e9 \u2603 ', 'na\u00efve', '1.10', '0x10', 'true', '1e3', '2020-01-01', '007', '+1', 'inf', '1_000']
 SPECIAL = {
     'privacy': [[], ['HIDDEN:a.*'], ['PUBLIC:a', 'private:b.**', 'HIDDEN:c'], ['PUBLIC:a', 'HIDDEN:b']], 'systemclass': ['pydoctor.model.System', 'nope', 'pydoctor.nope.X'],
     'htmlwriter': ['pydoctor.templatewriter.TemplateWriter', 'x.y'], 'intersphinx_cache_max_age': ['1d', '2w', 'x'], 'buildtime': ['2020-01-01 00:00:00', 'bad'],
@@ -100,7 +100,8 @@ def ini_text(parser: Any, a: Any, v: Any, section: str) -> str:
     elif isinstance(v, list):
         val = repr(v).replace('%', '%%')
     else:
-        needs_quote = (v != v.strip() or v == '' or '\n' in v or v[:1] in '["\'' or '#' in v or ';' in v)
+        # (a value that opens with '[' AND closes with ']' is the list syntax: written quoted; one that merely starts with '[' is plain text)
+        needs_quote = (v != v.strip() or v == '' or '\n' in v or v[:1] in '"\'' or (v[:1] == '[' and v.endswith(']')) or '#' in v or ';' in v)
         val = (repr(v) if needs_quote else v).replace('%', '%%')
     return f'[{section}]\n{k} = {val}\n'
 
@@ -338,6 +339,31 @@ def judge_unknown(fmt: str, res: Dict[str, Any]) -> None:
             res['violations'].append(core.violation(f'unknown-key-not-warned/{fmt}/{keyclass}', f'{fname}: unknown key {key!r} gave no warning ({warns})', case))
 
 
+def judge_unknown_two_files(res: Dict[str, Any]) -> None:
+    """the same unknown key in two (three) of the files read in one run: warned about, never applied, never fatal - like in one file"""
+    import toml
+    defaults, _ = load(None, '', [])
+    for key in ['no-such-option', 'not_an_option', 'html-out', 'project', 'privac', 'doc-format', 'x']:
+        for combo in [('toml', 'setupcfg'), ('toml', 'ini'), ('setupcfg', 'ini'), ('toml', 'setupcfg', 'ini')]:
+            files = {}
+            for fmt in combo:
+                fname, section = FORMATS[fmt]
+                files[fname] = (f'[{section}]\n' + toml.dumps({key: 'zzz', 'project-name': 'known'})) if fmt == 'toml' else f'[{section}]\n{key} = zzz\nproject-name = known\n'
+            got, warns = load(files, '', [])
+            res['evals'] += 1
+            res['nontrivial'].add(core.h('unknown2', key, combo))
+            case = {'kind': 'unknown2', 'key': key, 'combo': list(combo)}
+            label = '+'.join(combo)
+            if not isinstance(got, dict):
+                res['violations'].append(core.violation(f'unknown-key-in-several-files-aborts/{len(combo)}-files', f'unknown key {key!r} in {label}: {got} instead of a warning', case))
+                continue
+            changed = {k: (defaults[k], got[k]) for k in defaults if defaults[k] != got[k] and k != 'projectname'}
+            if changed:
+                res['violations'].append(core.violation(f'unknown-key-in-several-files-applied/{len(combo)}-files', f'unknown key {key!r} in {label} changed {changed}', case))
+            if got.get('projectname') != 'known':
+                res['violations'].append(core.violation(f'unknown-key-in-several-files-drops-known/{len(combo)}-files', f'unknown key {key!r} in {label}: the known key next to it was not applied', case))
+
+
 # ---------------------------------------------------------------- quoting
 
 def py_quote(s: str, q: str) -> str:
@@ -528,6 +554,7 @@ def jobs(tier: str) -> Iterable[Tuple[str, Any]]:
         yield ('two-spellings-one-file', ('spellings', d))
     for fmt in BASE_FORMATS:
         yield ('unknown-keys', ('unknown', fmt))
+    yield ('unknown-keys', ('unknown2',))
     for first in HOPS:
         yield ('read-histories', ('history', first))
     n = 3 if tier == 'quick' else 4
@@ -553,6 +580,8 @@ def run_job(job: Any, tier: str) -> Dict[str, Any]:
         judge_spellings(job[1], res)
     elif job[0] == 'unknown':
         judge_unknown(job[1], res)
+    elif job[0] == 'unknown2':
+        judge_unknown_two_files(res)
     elif job[0] == 'history':
         depth = 3 if tier == 'quick' else 4
         for L in range(1, depth + 1):
@@ -581,6 +610,9 @@ def replay(case: Dict[str, Any]) -> List[Dict[str, Any]]:
         res['violations'] = [v for v in res['violations'] if v['case'].get('key') == case['key']]
     elif case['kind'] == 'history':
         judge_history(case['hist'], res)
+    elif case['kind'] == 'unknown2':
+        judge_unknown_two_files(res)
+        res['violations'] = [v for v in res['violations'] if v['case'] == case]
     elif case['kind'] == 'spellings':
         judge_spellings(case['dest'], res)
     else:
